@@ -65,8 +65,10 @@ struct Shared {
             maxdepth, cache_hits, syntactic, leaves, cex_seq, path_seq, witness_hits, infeasible, events;
     long max_paths;
     // breadcrumbs: what a process was doing (harness-provided), readable by whoever reaps it after a crash
-    enum { NCRUMB = 4096, CRUMB_LEN = 1536 };
+    enum { NCRUMB = 4096, CRUMB_LEN = 1536, CASE_LEN = 640 };
     char crumbs[NCRUMB][CRUMB_LEN];
+    char crumb_case[NCRUMB][CASE_LEN];   // case line of the process owning the slot
+    int crumb_pid[NCRUMB];               // its pid (so that whoever reaps an orphan can find the slot)
 };
 
 struct Engine;
@@ -146,8 +148,13 @@ inline void crumb(const std::string &text) {
     if (!e || !e->sh) return;
     std::string t = text;
     if (t.size() >= (size_t) Shared::CRUMB_LEN) t.resize(Shared::CRUMB_LEN - 1);
-    char *dst = e->sh->crumbs[e->path_id % Shared::NCRUMB];
+    long slot = e->path_id % Shared::NCRUMB;
+    char *dst = e->sh->crumbs[slot];
     memcpy(dst, t.c_str(), t.size() + 1);
+    e->sh->crumb_pid[slot] = (int) getpid();
+    std::string cl = e->case_desc;
+    if (cl.size() >= (size_t) Shared::CASE_LEN) cl.resize(Shared::CASE_LEN - 1);
+    memcpy(e->sh->crumb_case[slot], cl.c_str(), cl.size() + 1);
 }
 
 inline std::string model_json() {
@@ -218,6 +225,7 @@ inline void adopt_model(const z3::model &m) {
         if (!val.is_numeral()) fault("model value of " + e->rnames[i] + " is not a numeral: " + val.to_string());
         e->rvals[i] = q_of_numeral(val);
     }
+    crumb(" ## " + model_json());   // a crash from here on can be attributed to this concrete input (harnesses may refine it)
 }
 
 // check PC ∧ extra.  Returns sat/unsat; unknown is an engine fault. On sat, *out receives the model.
@@ -821,48 +829,49 @@ inline int run_cases(const Options &opt, const std::function<void(const Case &, 
     }
     auto t0 = std::chrono::steady_clock::now();
     prctl(PR_SET_CHILD_SUBREAPER, 1); // orphans of crashed processes are re-parented to us and waited for
-    std::vector<pid_t> roots;
-    int bad = 0;
-    auto reap_root = [&](pid_t pid, const std::string &line) {
-        int st = 0;
-        while (waitpid(pid, &st, 0) < 0 && errno == EINTR) {
-        }
-        if (WIFSIGNALED(st) || (WIFEXITED(st) && WEXITSTATUS(st) != EXIT_OK)) {
-            if (!(WIFEXITED(st) && WEXITSTATUS(st) == EXIT_FAULT)) {
-                sh->crashes++;
-                std::string s = "{\"type\":\"crash\",\"case\":\"" + jesc(line) + "\",\"signal\":" +
-                                std::to_string(WIFSIGNALED(st) ? WTERMSIG(st) : 0) + ",\"exit\":" +
-                                std::to_string(WIFEXITED(st) ? WEXITSTATUS(st) : -1) + ",\"model\":{},\"root\":true}\n";
-                if (log_fd >= 0) { ssize_t r = write(log_fd, s.data(), s.size()); (void) r; }
-                else fputs(s.c_str(), stdout);
-            }
-            bad++;
-        }
+    int faulted = 0;
+    struct Root { std::string line; long path; };
+    std::map<pid_t, Root> live;
+    auto put = [&](const std::string &s) {
+        if (log_fd >= 0) { ssize_t r = write(log_fd, s.data(), s.size()); (void) r; }
+        else fputs(s.c_str(), stdout);
     };
-    std::vector<std::pair<pid_t, std::string>> live;
+    // any child of ours that terminated: a case root, or an orphan of a crashed process
+    auto handle_exit = [&](pid_t pid, int st) {
+        bool abnormal = WIFSIGNALED(st) || (WIFEXITED(st) && WEXITSTATUS(st) != EXIT_OK && WEXITSTATUS(st) != EXIT_FAULT);
+        bool fault = WIFEXITED(st) && WEXITSTATUS(st) == EXIT_FAULT;
+        auto it = live.find(pid);
+        if (fault) faulted++;
+        if (abnormal) {
+            sh->crashes++;
+            std::string cr;
+            std::string line = "(orphan)";
+            long slot = -1;
+            if (it != live.end()) { slot = it->second.path % Shared::NCRUMB; line = it->second.line; }
+            else for (long k = 0; k < Shared::NCRUMB; k++) if (sh->crumb_pid[k] == (int) pid) { slot = k; break; }
+            if (slot >= 0) {
+                char *cb = sh->crumbs[slot];
+                cb[Shared::CRUMB_LEN - 1] = 0;
+                cr = jesc(cb);
+                if (it == live.end()) { sh->crumb_case[slot][Shared::CASE_LEN - 1] = 0; line = sh->crumb_case[slot]; }
+            }
+            put("{\"type\":\"crash\",\"case\":\"" + jesc(line) + "\",\"signal\":" + std::to_string(WIFSIGNALED(st) ? WTERMSIG(st) : 0) +
+                ",\"exit\":" + std::to_string(WIFEXITED(st) ? WEXITSTATUS(st) : -1) + ",\"model\":{},\"root\":true,\"crumb\":\"" + cr + "\"}\n");
+            // a process that died abnormally never gave its token back: return one on its behalf (otherwise the pool drains)
+            sem_post(&sh->tokens);
+        }
+        if (it != live.end()) live.erase(it);
+    };
     for (auto &line : lines) {
-        sem_wait(&sh->tokens);
-        // reap finished roots opportunistically
-        for (size_t i = 0; i < live.size();) {
+        while (sem_trywait(&sh->tokens) != 0) {
             int st;
-            pid_t r = waitpid(live[i].first, &st, WNOHANG);
-            if (r == live[i].first) {
-                if (WIFSIGNALED(st) || (WIFEXITED(st) && WEXITSTATUS(st) != EXIT_OK)) {
-                    if (!(WIFEXITED(st) && WEXITSTATUS(st) == EXIT_FAULT)) {
-                        sh->crashes++;
-                        std::string s = "{\"type\":\"crash\",\"case\":\"" + jesc(live[i].second) + "\",\"signal\":" +
-                                        std::to_string(WIFSIGNALED(st) ? WTERMSIG(st) : 0) + ",\"exit\":" +
-                                        std::to_string(WIFEXITED(st) ? WEXITSTATUS(st) : -1) +
-                                        ",\"model\":{},\"root\":true}\n";
-                        if (log_fd >= 0) { ssize_t rr = write(log_fd, s.data(), s.size()); (void) rr; }
-                    }
-                    bad++;
-                }
-                live.erase(live.begin() + i);
-            } else
-                i++;
+            pid_t r = waitpid(-1, &st, WNOHANG);
+            if (r > 0) handle_exit(r, st);
+            else usleep(2000);
         }
         fflush(stdout);
+        long root_path = ++sh->path_seq;
+        sh->crumbs[root_path % Shared::NCRUMB][0] = 0;
         pid_t pid = fork();
         if (pid < 0) { perror("fork"); return 2; }
         if (pid == 0) {
@@ -874,7 +883,7 @@ inline int run_cases(const Options &opt, const std::function<void(const Case &, 
             e->cex_prefix = opt.cex_prefix;
             e->witness = opt.witness;
             e->own_token = true;
-            e->path_id = ++sh->path_seq;
+            e->path_id = root_path;
             e->case_desc = line;
             sh->paths++;
             Case c = parse_case(line);
@@ -882,21 +891,13 @@ inline int run_cases(const Options &opt, const std::function<void(const Case &, 
             body(c, line);
             leaf_end();
         }
-        live.emplace_back(pid, line);
+        live[pid] = Root{line, root_path};
     }
-    for (auto &p : live) reap_root(p.first, p.second);
-    {
+    while (true) {
         int st;
-        while (true) {
-            pid_t r = wait(&st);
-            if (r < 0) { if (errno == EINTR) continue; break; }
-            if (WIFSIGNALED(st)) {
-                sh->crashes++;
-                std::string s = "{\"type\":\"crash\",\"case\":\"(orphan)\",\"signal\":" + std::to_string(WTERMSIG(st)) +
-                                ",\"exit\":-1,\"model\":{},\"root\":true}\n";
-                if (log_fd >= 0) { ssize_t rr = write(log_fd, s.data(), s.size()); (void) rr; }
-            }
-        }
+        pid_t r = wait(&st);
+        if (r < 0) { if (errno == EINTR) continue; break; }
+        handle_exit(r, st);
     }
     auto t1 = std::chrono::steady_clock::now();
     double wall = std::chrono::duration<double>(t1 - t0).count();
@@ -914,7 +915,7 @@ inline int run_cases(const Options &opt, const std::function<void(const Case &, 
     if (log_fd >= 0) { ssize_t r = write(log_fd, s.data(), s.size()); (void) r; }
     fputs(s.c_str(), stdout);
     fflush(stdout);
-    return (sh->faults.load() > 0 || bad > 0) ? EXIT_FAULT : 0;
+    return (sh->faults.load() > 0 || faulted > 0) ? EXIT_FAULT : 0;
 }
 
 } // namespace symx
